@@ -9,7 +9,7 @@ meson compile -C _build >/dev/null 2>&1 || { echo "$id: build with change FAILED
 t=$(meson test -C _build 2>&1 | grep -E "^(Ok|Expected Fail|Fail|Unexpected Pass|Timeout):" | tr -s ' ' | tr '\n' ' ')
 echo "$id tests with change: $t"
 if [ -f $out/demo.c ] && [ ! -f $out/demo.sh ]; then
-  gcc -Wall -O1 -rdynamic -I$wt/_build/include $out/demo.c -o $out/demo.bin -L$wt/_build/src/lib -lzck -lpthread -Wl,-rpath,$wt/_build/src/lib 2>/dev/null || { echo "$id: demo does not compile"; exit 2; }
+  gcc -Wall -O1 -rdynamic -I$wt/_build/include $out/demo.c -o $out/demo.bin -L$wt/_build/src/lib -lzck -lpthread -lcrypto -lzstd -Wl,-rpath,$wt/_build/src/lib 2>/dev/null || { echo "$id: demo does not compile"; exit 2; }
   run="$out/demo.bin $*"
 else
   run="bash $out/demo.sh $*"
